@@ -24,31 +24,32 @@ theorem Lzma2Decoder_reset_safe {d : Lzma2Decoder} (hd : Lzma2DecoderInv d) :
   intro st ⟨hst, _⟩
   exact ESafe_pure.mpr hst
 
-theorem parseUncompressed_safe (accum : Accum) (rd : Rd) (resetDict : Bool) :
-    MSafe (fun x => x.2.rem.length ≤ rd.rem.length)
+theorem parseUncompressed_safe (accum : Accum) (rd : Rd) (resetDict : Bool) (ha : AccumInv accum) :
+    MSafe (fun x => AccumInv x.1 ∧ x.2.rem.length ≤ rd.rem.length)
       (Lzma2Decoder.parseUncompressed accum rd resetDict) := by
   unfold Lzma2Decoder.parseUncompressed
   refine MSafe.bind (MSafe.liftE (lzErr_safe (readU16BE_safe rd))) ?_
   rintro ⟨u, rd1⟩ ⟨h1, _⟩
   dsimp only
-  have tail : ∀ accum1 : Accum, MSafe (fun x => x.2.rem.length ≤ rd.rem.length) (do
+  have tail : ∀ accum1 : Accum, AccumInv accum1 →
+      MSafe (fun x => AccumInv x.1 ∧ x.2.rem.length ≤ rd.rem.length) (do
       let x ← liftE (lzErr (rd1.readExact (u + 1)))
       pure (accum1.appendBytes x.1, x.2)) := by
-    intro accum1
+    intro accum1 ha1
     refine MSafe.bind (MSafe.liftE (lzErr_safe (readExact_safe rd1 (u + 1)))) ?_
     rintro ⟨buf, rd2⟩ ⟨h2, _⟩
-    refine MSafe_pure.mpr ?_
+    refine MSafe_pure.mpr ⟨AccumInv_appendBytes ha1 _, ?_⟩
     dsimp only at h1 h2 ⊢; omega
   split
-  · exact MSafe.bind (Accum.reset_safe _) (fun a _ => tail a)
-  · exact tail accum
+  · exact MSafe.bind (Accum.reset_safe _) (fun a ha1 => tail a ha1)
+  · exact tail accum ha
 
 theorem lzma2_props_of_byte {pb : Nat} (h : ¬ pb ≥ 225) :
     PropsOk { lc := pb % 9, lp := pb / 9 % 5, pb := pb / 9 / 5 } := props_of_byte h
 
 theorem parseLzma_safe {d : Lzma2Decoder} (hd : Lzma2DecoderInv d) (accum : Accum) (rd : Rd)
-    (status : Nat) :
-    MSafe (fun x => Lzma2DecoderInv x.1 ∧ x.2.2.rem.length ≤ rd.rem.length)
+    (status : Nat) (ha : AccumInv accum) :
+    MSafe (fun x => Lzma2DecoderInv x.1 ∧ AccumInv x.2.1 ∧ x.2.2.rem.length ≤ rd.rem.length)
       (d.parseLzma accum rd status) := by
   unfold Lzma2Decoder.parseLzma
   extract_lets cls rDict rState rProps jp1
@@ -63,13 +64,13 @@ theorem parseLzma_safe {d : Lzma2Decoder} (hd : Lzma2DecoderInv d) (accum : Accu
   rintro ⟨p, rd2⟩ ⟨h2, _⟩
   dsimp -zeta only at h2 ⊢
   extract_lets psz jp2
-  have hjp2 : ∀ accum1, MSafe (fun x => Lzma2DecoderInv x.1 ∧ x.2.2.rem.length ≤ rd.rem.length)
+  have hjp2 : ∀ accum1, AccumInv accum1 → MSafe (fun x => Lzma2DecoderInv x.1 ∧ AccumInv x.2.1 ∧ x.2.2.rem.length ≤ rd.rem.length)
       (jp2 accum1) := by
-    intro accum1
+    intro accum1 ha1
     simp -zeta only [jp2]
     extract_lets jp3 jp5
     have hjp3 : ∀ x : DState × Rd, DStateInv x.1 → x.2.rem.length ≤ rd2.rem.length →
-        MSafe (fun x => Lzma2DecoderInv x.1 ∧ x.2.2.rem.length ≤ rd.rem.length) (jp3 x) := by
+        MSafe (fun x => Lzma2DecoderInv x.1 ∧ AccumInv x.2.1 ∧ x.2.2.rem.length ≤ rd.rem.length) (jp3 x) := by
       rintro ⟨st, rd3⟩ hst h3
       simp -zeta only [jp3]
       extract_lets st'
@@ -77,13 +78,13 @@ theorem parseLzma_safe {d : Lzma2Decoder} (hd : Lzma2DecoderInv d) (accum : Accu
       refine MSafe.bind (MSafe.liftE (lzErr_safe (RC_new_safe (rd3.split psz).1))) ?_
       rintro ⟨rc, taken1⟩ ⟨hrc, h4⟩
       refine MSafe.bind (processMode_safe (ω := Accum) .finish taken1 (setUnpackedSize_inv hst _)
-        trivial hrc) ?_
-      rintro ⟨st2, accum2, rc2, taken2⟩ ⟨hst2, _, _, h5⟩
+        ha1 hrc) ?_
+      rintro ⟨st2, accum2, rc2, taken2⟩ ⟨hst2, ha2, _, h5⟩
       refine MSafe.bind (MSafe.liftE (isFinishedOk_safe rc2 taken2)) ?_
       intro fin _
       extract_lets jp4
-      have hjp4 : MSafe (fun x => Lzma2DecoderInv x.1 ∧ x.2.2.rem.length ≤ rd.rem.length) (jp4 ()) := by
-        refine MSafe_pure.mpr ⟨hst2, ?_⟩
+      have hjp4 : MSafe (fun x => Lzma2DecoderInv x.1 ∧ AccumInv x.2.1 ∧ x.2.2.rem.length ≤ rd.rem.length) (jp4 ()) := by
+        refine MSafe_pure.mpr ⟨hst2, ha2, ?_⟩
         dsimp only at h1 h2 h3 h4 h5 ⊢
         rw [unsplit_length]
         omega
@@ -92,7 +93,7 @@ theorem parseLzma_safe {d : Lzma2Decoder} (hd : Lzma2DecoderInv d) (accum : Accu
       · exact hjp4
     split
     · have hjp5 : ∀ x : Props × Rd, PropsOk x.1 → x.2.rem.length ≤ rd2.rem.length →
-          MSafe (fun x => Lzma2DecoderInv x.1 ∧ x.2.2.rem.length ≤ rd.rem.length) (jp5 x) := by
+          MSafe (fun x => Lzma2DecoderInv x.1 ∧ AccumInv x.2.1 ∧ x.2.2.rem.length ≤ rd.rem.length) (jp5 x) := by
         rintro ⟨np, rd3⟩ hnp h3
         simp -zeta only [jp5]
         refine MSafe.bind (MSafe.liftE (resetState_safe hd hnp)) ?_
@@ -118,52 +119,52 @@ theorem parseLzma_safe {d : Lzma2Decoder} (hd : Lzma2DecoderInv d) (accum : Accu
     · rw [M_pure_bind]
       exact hjp3 _ hd (Nat.le_refl _)
   split
-  · exact MSafe.bind (Accum.reset_safe _) (fun a _ => hjp2 a)
+  · exact MSafe.bind (Accum.reset_safe _) (fun a ha1 => hjp2 a ha1)
   · rw [M_pure_bind]
-    exact hjp2 _
+    exact hjp2 _ ha
 
 theorem chunkLoop_safe : ∀ (fuel : Nat) (d : Lzma2Decoder) (accum : Accum) (rd : Rd),
-    Lzma2DecoderInv d → rd.rem.length < fuel →
-    MSafe (fun x => Lzma2DecoderInv x.1 ∧ x.2.2.rem.length ≤ rd.rem.length)
+    Lzma2DecoderInv d → AccumInv accum → rd.rem.length < fuel →
+    MSafe (fun x => Lzma2DecoderInv x.1 ∧ AccumInv x.2.1 ∧ x.2.2.rem.length ≤ rd.rem.length)
       (Lzma2Decoder.chunkLoop fuel d accum rd) := by
   intro fuel
   induction fuel with
-  | zero => intro d accum rd _ hf; omega
+  | zero => intro d accum rd _ _ hf; omega
   | succ fuel ih =>
-    intro d accum rd hd hf
+    intro d accum rd hd ha hf
     unfold Lzma2Decoder.chunkLoop
     refine MSafe.bind (MSafe.liftE (lzErr_safe (readU8_safe rd))) ?_
     rintro ⟨status, rd1⟩ h1
     dsimp only at h1 ⊢
     split
-    · exact MSafe_pure.mpr ⟨hd, by dsimp only; omega⟩
+    · exact MSafe_pure.mpr ⟨hd, ha, by dsimp only; omega⟩
     · split
-      · refine MSafe.bind (parseUncompressed_safe accum rd1 true) ?_
-        rintro ⟨accum1, rd2⟩ h2
+      · refine MSafe.bind (parseUncompressed_safe accum rd1 true ha) ?_
+        rintro ⟨accum1, rd2⟩ ⟨ha1, h2⟩
         dsimp only at h2 ⊢
-        refine (ih d accum1 rd2 hd (by omega)).mono ?_
-        rintro ⟨a, b, c⟩ ⟨h3, h4⟩
-        exact ⟨h3, by dsimp only at h4 ⊢; omega⟩
+        refine (ih d accum1 rd2 hd ha1 (by omega)).mono ?_
+        rintro ⟨a, b, c⟩ ⟨h3, h3', h4⟩
+        exact ⟨h3, h3', by dsimp only at h4 ⊢; omega⟩
       · split
-        · refine MSafe.bind (parseUncompressed_safe accum rd1 false) ?_
-          rintro ⟨accum1, rd2⟩ h2
+        · refine MSafe.bind (parseUncompressed_safe accum rd1 false ha) ?_
+          rintro ⟨accum1, rd2⟩ ⟨ha1, h2⟩
           dsimp only at h2 ⊢
-          refine (ih d accum1 rd2 hd (by omega)).mono ?_
-          rintro ⟨a, b, c⟩ ⟨h3, h4⟩
-          exact ⟨h3, by dsimp only at h4 ⊢; omega⟩
-        · refine MSafe.bind (parseLzma_safe hd accum rd1 _) ?_
-          rintro ⟨d1, accum1, rd2⟩ ⟨hd1, h2⟩
+          refine (ih d accum1 rd2 hd ha1 (by omega)).mono ?_
+          rintro ⟨a, b, c⟩ ⟨h3, h3', h4⟩
+          exact ⟨h3, h3', by dsimp only at h4 ⊢; omega⟩
+        · refine MSafe.bind (parseLzma_safe hd accum rd1 _ ha) ?_
+          rintro ⟨d1, accum1, rd2⟩ ⟨hd1, ha1, h2⟩
           dsimp only at h2 ⊢
-          refine (ih d1 accum1 rd2 hd1 (by omega)).mono ?_
-          rintro ⟨a, b, c⟩ ⟨h3, h4⟩
-          exact ⟨h3, by dsimp only at h4 ⊢; omega⟩
+          refine (ih d1 accum1 rd2 hd1 ha1 (by omega)).mono ?_
+          rintro ⟨a, b, c⟩ ⟨h3, h3', h4⟩
+          exact ⟨h3, h3', by dsimp only at h4 ⊢; omega⟩
 
 theorem Lzma2Decoder_decompress_safe {d : Lzma2Decoder} (hd : Lzma2DecoderInv d) (rd : Rd) :
     MSafe (fun x => Lzma2DecoderInv x.1 ∧ x.2.rem.length ≤ rd.rem.length) (d.decompress rd) := by
   unfold Lzma2Decoder.decompress
   dsimp only
-  refine MSafe.bind (chunkLoop_safe _ d _ rd hd (by omega)) ?_
-  rintro ⟨d1, accum1, rd1⟩ ⟨hd1, h1⟩
+  refine MSafe.bind (chunkLoop_safe _ d _ rd hd (AccumInv_fromStream _) (by omega)) ?_
+  rintro ⟨d1, accum1, rd1⟩ ⟨hd1, _, h1⟩
   dsimp only
   refine MSafe.bind (Accum.finish_safe _) ?_
   intro _ _
@@ -177,6 +178,14 @@ theorem lzma2Decompress_safe (rd : Rd) :
   refine MSafe.bind (Lzma2Decoder_decompress_safe hd rd) ?_
   rintro ⟨_, rd1⟩ ⟨_, h1⟩
   exact MSafe_pure.mpr h1
+
+theorem lzma2Decompress_no_panic (rd : Rd) (snk : Sink) (w : String) :
+    (lzma2Decompress rd snk).2 ≠ .error (.panic w) :=
+  (lzma2Decompress_safe rd snk).ne_panic w
+
+theorem lzma2Decompress_terminates (rd : Rd) (snk : Sink) :
+    (lzma2Decompress rd snk).2 ≠ .error .fuel :=
+  (lzma2Decompress_safe rd snk).ne_fuel
 
 end Safety
 end Lzma
